@@ -99,7 +99,8 @@ fn check(font: &MonoFont, st: MonoTextStyle<'_, Gray8>, sty: &[&str], ts: TextSt
             Alignment::Center => pos.x - (w - 1) / 2, // i32 division truncates: (−1)/2 = 0 for the empty line
         };
         let liney = pos.y + k as i32 * lh;
-        let m = expected_line(font, l, left, liney - off, tc, bc, eff(sty[2], tc), eff(sty[3], tc))?;
+        // (the zero-sized null font has no glyph cells: nothing is expected for the characters themselves)
+        let m = expected_line_ex(font, l, left, liney - off, tc, bc, eff(sty[2], tc), eff(sty[3], tc), cw > 0 && ch > 0)?;
         // alignment statement on the measured box of the line
         let met = st.measure_string(l, Point::new(left, liney), ts.baseline);
         let b = met.bounding_box;
